@@ -195,3 +195,15 @@ Proof.
   intros Hk Hl Hle. unfold bp_consume_stale, bp_consume_locked. destruct (mks c); [contradiction|].
   destruct (Nat.eqb_spec (c_limit c) 0); [contradiction|]. destruct (Nat.leb_spec (c_limit c) (length st)); [reflexivity|lia].
 Qed.
+
+(* a Consume whose Load missed earlier, but whose group has a shard by the time it holds the lock, joins that
+   shard: nothing is created, nothing is counted (LoadOrStore, not Store) *)
+Lemma stale_joins {R} c now md (p : list R) st i :
+  mks c <> [] -> find_shard (aset_of (md_values c md)) st = Some i ->
+  (c_limit c = 0 \/ length st < c_limit c) ->
+  bp_consume_stale c now md p st = (upd_nth i (fun s => sh_enqueue s p) st, 0%N).
+Proof.
+  intros Hk Hf Hl. unfold bp_consume_stale, bp_consume_locked. destruct (mks c); [contradiction|].
+  rewrite Hf. destruct (Nat.eqb_spec (c_limit c) 0); simpl; [reflexivity|].
+  destruct (Nat.leb_spec (c_limit c) (length st)); [lia|reflexivity].
+Qed.
